@@ -3018,6 +3018,7 @@ static void AssembleFile_InitPass(void) {
     InitLstMacroExpMod(&LstMacroExpModDefault);
     SetFlag(&RelaxedMode, RelaxedName, DefRelaxedMode);
     SetIntConstRelaxedMode(DefRelaxedMode);
+    SetFlag(&DottedStructs, DottedStructsName, False);
     SetFlag(&CompMode, CompModeName, DefCompMode);
     strmaxcpy(TmpCompStr, NestMaxName, sizeof(TmpCompStr));
     EnterIntSymbol(&TmpComp, NestMax = DEF_NESTMAX, SegNone, True);
